@@ -113,6 +113,20 @@ def run(scratch, logdir, h_cls):
                    details=[dict(id="verus.split_next_section.postcondition", description="Verus could not prove the contract of the extracted split_next_section: " + (m.group(1)[:200] if m else "see log"), location="ohkami/src/router/util.rs (split_next_section)")])
         rec["verus_stderr"] = err[-3000:]
         return rec
+    # vacuity guard: with `ensures false` in place of the contract the same text must FAIL; if it verifies, the injected
+    # loop invariant (or an assumption) is inconsistent and the success above means nothing
+    cfile = os.path.join(logdir, "split_control_must_fail.rs")
+    if src.count("ensures split_post(path@, r.0@, r.1@)") != 1:
+        return undecided("vacuity control could not be built")
+    open(cfile, "w").write(src.replace("ensures split_post(path@, r.0@, r.1@)", "ensures false"))
+    try:
+        c = subprocess.run(["verus", cfile, "--output-json"], stdout=subprocess.PIPE, stderr=subprocess.PIPE, text=True, timeout=600, cwd=logdir)
+        cj = json.loads(c.stdout[c.stdout.index("{"):]).get("verification-results", {})
+    except Exception as e:
+        return undecided("vacuity control did not run: " + str(e)[:200])
+    ev["vacuity_control"] = dict(file="split_control_must_fail.rs", expected="errors > 0", errors=cj.get("errors", 0), verified=cj.get("verified", 0))
+    if cj.get("errors", 0) == 0:
+        return undecided("vacuity control `ensures false` verified: the injected invariant is inconsistent; the proof is not trusted")
     ev["state"] = "ok"
     rec["state"] = "ok"
     return rec
